@@ -361,6 +361,7 @@ int tls13_do_recv(TLS_CONNECT *conn)
 	if (tls13_gcm_decrypt(key, iv,
 		seq_num, record + 5, recordlen - 5,
 		&record_type, conn->databuf, &conn->datalen) != 1) {
+		conn->datalen = 0;
 		error_print();
 		return -1;
 	}
@@ -373,6 +374,7 @@ int tls13_do_recv(TLS_CONNECT *conn)
 
 
 	if (record_type != TLS_record_application_data) {
+		conn->datalen = 0;
 		error_print();
 		return -1;
 	}
